@@ -224,29 +224,79 @@ def konst_path():
     return m.group(1) if m else "/repo/konst"
 
 
-def produce(tier, seed, release, out_path):
-    cs = cases(tier, seed)
-    nb = 8 if tier == "thorough" else 4
-    crate = "c19t" if tier == "thorough" else "c19q"
-    bins = {}
+def gen_sources(cs, nb, crate, broken):
+    """bins (name -> source) and, per bin, the line span of every case's impl function;
+    cases in `broken` get a stub instead of the macro use (rustc rejected the expansion)"""
+    bins, spans = {}, {}
     for b in range(nb):
+        name = "%s_rebind%d" % (crate, b)
         part = [(i, c) for i, c in enumerate(cs) if i % nb == b]
         src = [common.PRELUDE, HELPERS]
+        sp = []
         for i, (mac, shape, kinds, tup1) in part:
-            src.append(case_fns(i, mac, shape, kinds, tup1))
+            start = "".join(src).count("\n") + 1
+            fns = case_fns(i, mac, shape, kinds, tup1)
+            if i in broken:
+                n = len(kinds)
+                stub = "fn i%d(res: Result<%s, i64>) -> String { \"COMPILE-ERROR\".to_string() }\n" % (i, payload_ty(n, tup1))
+                fns = stub + fns[fns.index("fn s%d(" % i):]
+            src.append(fns)
+            # the impl function is everything before `fn s<i>(`
+            impl_lines = fns[:fns.index("fn s%d(" % i)].count("\n")
+            sp.append((start, start + impl_lines - 1, i))
         src.append("fn main() {\n  let mut out = Out::new();\n")
         for i, (mac, shape, kinds, tup1) in part:
             src.append(case_calls(i, mac, shape, kinds, tup1))
         src.append("  out.flush();\n}\n")
-        bins["%s_rebind%d" % (crate, b)] = "".join(src)
+        bins[name] = "".join(src)
+        spans[name] = sp
+    return bins, spans
+
+
+def write_crate(crate, bins):
     d = common.make_crate(crate, bins)
     kp = konst_path()
     if kp != "/repo/konst":
         ct = os.path.join(d, "Cargo.toml")
         common.write_if_changed(ct, open(ct).read().replace('"/repo/konst"', '"%s"' % kp))
+    return d
+
+
+def rejected_cases(crate, spans, release):
+    """cases whose macro use rustc rejects: error positions mapped back to the generated
+    impl functions (None when an error lies elsewhere, e.g. inside konst itself)"""
+    d = os.path.join(common.GEN, crate)
+    with kv.Lock("cargo.lock"):
+        p = kv.run(["cargo", "build", "--offline", "-q", "--bins", "--message-format=short"] + (["--release"] if release else []),
+                   cwd=d, timeout=2400)
+    bad = set()
+    for m in re.finditer(r"^src/bin/(\w+)\.rs:(\d+):\d+: error", p.stderr, re.M):
+        name, line = m.group(1), int(m.group(2))
+        hit = [i for (a, b, i) in spans.get(name, []) if a <= line <= b]
+        if not hit:
+            return None
+        bad.update(hit)
+    return bad or None
+
+
+def produce(tier, seed, release, out_path):
+    cs = cases(tier, seed)
+    nb = 8 if tier == "thorough" else 4
+    crate = "c19t" if tier == "thorough" else "c19q"
+    bins, spans = gen_sources(cs, nb, crate, set())
+    write_crate(crate, bins)
     err = common.build(crate, release=release)
     if err:
-        return err
+        # which uses of the macros does rustc reject?  Report those as cases (impl column
+        # COMPILE-ERROR) instead of giving up on the whole program.
+        bad = rejected_cases(crate, spans, release)
+        if not bad:
+            return err
+        bins, spans = gen_sources(cs, nb, crate, bad)
+        write_crate(crate, bins)
+        err2 = common.build(crate, release=release)
+        if err2:
+            return err
     open(out_path, "w").close()
     for b in sorted(bins):
         err = common.run_bin(crate, b, [], out_path, release=release)
